@@ -13,10 +13,12 @@ import vlib
 from vlib import hx, hxl
 sys.path.insert(0, os.path.dirname(os.path.dirname(os.path.abspath(__file__))))
 import translate_panics
+from props import front_stream
 
 ID = 'C01'
-COMPONENTS = []
-THEOREMS = ['C01_panic_sites_covered', 'C01_span_no_panic', 'C01_crop_no_panic']
+COMPONENTS = ['front']
+THEOREMS = ['C01_panic_sites_covered', 'C01_span_no_panic', 'C01_crop_no_panic',
+            'C01_front_no_panic', 'C01_front_error_located', 'C01_front_nonvacuous']
 ALLOWED_AXIOMS = set()
 
 
@@ -354,6 +356,7 @@ def check(run):
     ar = probe_arities(impl_exe, names)
     run.extra['std_functions'] = len(ar)
     run.extra['std_members'] = len(names)
+    front_stream.run_front_stream(run, impl_exe, vlib.rng_for(run.seed, ID + '-front'), run.tier)   # composed front-end model vs load_source, from bytes
     run_cases(run, impl_exe, source_cases(rng, run.tier), 'src', shards=vlib.NCPU, mem=3 << 30)
     run_cases(run, impl_exe, matrix_cases(rng, ar, run.tier), 'std', shards=8, mem=3 << 30)
     cli_stream(run, cli, rng, run.tier)
@@ -370,6 +373,8 @@ def replay(run, path):
         bad = res.split('\t')[0] in ('PANIC', 'CRASH', 'TIMEOUT', 'NOOUTPUT')
         print('REPRODUCED' if bad else 'not reproduced')
         return 1 if bad else 0
+    if isinstance(r, dict) and r.get('kind') == 'front':
+        return front_stream.replay_front(run, r, impl_exe)
     if isinstance(r, dict) and r.get('kind') == 'deep':
         cli = vlib.build_cli()
         tmp = tempfile.mkdtemp(prefix='rsj-verif-c01.')
